@@ -855,8 +855,6 @@ impl CatalogPersistence {
 
         file.sync_all()
             .wrap_err("failed to sync catalog file to disk")?;
-        #[cfg(kahflane_turdb_verif)]
-        crate::verif::file_event("fsync", path);
 
         Ok(())
     }
